@@ -36,6 +36,9 @@ var h02ReqSets = [][]string{
 	{"✓", "!@", "Z"},
 	{"0123456789"},
 	{"aa"},
+	{"Il1", "0123456789"}, // with Exclude: Ambiguous the first is emptied, the second partly excluded
+	{"7", "7"},            // two equal required sets
+	{"ab", "ba"},          // equal as sets
 }
 
 func h02Chars(s string) []string { return strings.Split(s, "") }
